@@ -1,6 +1,7 @@
 """C05 - 1014 unblocking: reads return the exact payload stream for every read sequence."""
 import io
 
+from .. import sentinel
 from ..ref import blocking as ref
 from .c04 import coded
 
@@ -62,6 +63,7 @@ def files():
 
 
 _FILES = files()
+_BIGGEST = max(len(v) for v in _FILES.values())
 _PAYLOAD = {k: ref.payload_stream(v) for k, v in _FILES.items()}
 
 
@@ -159,8 +161,10 @@ def cases(ctx):
     i += 1
 
 
-def rd(ctx, u, *args):
-    kind, val = ctx.call(u.read, *args, budget=20000 + 400 * 12)
+def rd(ctx, u, *args, cap=_BIGGEST):
+    # bounded progress, not a fixed allowance: 20 000 lines plus 100 per byte that the call may have to move
+    n = args[0] if args and isinstance(args[0], int) and args[0] >= 0 else cap
+    kind, val = ctx.call(u.read, *args, budget=sentinel.budget_bulk(min(n, cap) + 2028))
     ctx.count('Unblock1014.read calls')
     return kind, val
 
@@ -207,7 +211,7 @@ def run_reads(ctx, case, name, sizes, tail=True):
             fail(ctx, case, 'read:wrong_slice', {'after': 'sweep read', 'size': 7, 'pos': pos, 'got': got.hex()})
         return False
     pos += len(got)
-    kind, got = rd(ctx, u)
+    kind, got = rd(ctx, u, cap=len(_FILES[name]))
     if kind != 'ok':
         unexpected(ctx, case, kind, got, 'read_all')
         return False
@@ -252,7 +256,7 @@ def judge(ctx, case):
                 ok = ok and k == 'ok'
             if not ok:
                 continue
-            k, got = rd(ctx, u) if variant == 'noarg' else rd(ctx, u, None)
+            k, got = rd(ctx, u, cap=len(_FILES[name])) if variant == 'noarg' else rd(ctx, u, None, cap=len(_FILES[name]))
             if k == 'exc' and variant == 'none' and isinstance(got, TypeError):
                 ctx.count('read(None) refused with TypeError (not judged)')
                 continue
@@ -307,10 +311,10 @@ def judge(ctx, case):
         if b'\x40' * 1012 in x:
             ctx.count('unblock_1014 inverse runs on data holding a whole stretch of fill bytes')
         mid, out = io.BytesIO(), io.BytesIO()
-        k1, v1 = ctx.call(m.block_1014, io.BytesIO(x), mid, budget=40000)
+        k1, v1 = ctx.call(m.block_1014, io.BytesIO(x), mid, budget=sentinel.budget_for(n))
         if k1 != 'ok':
             return  # C04's business
-        k2, v2 = ctx.call(m.unblock_1014, io.BytesIO(mid.getvalue()), out, budget=40000)
+        k2, v2 = ctx.call(m.unblock_1014, io.BytesIO(mid.getvalue()), out, budget=sentinel.budget_for(n))
         ctx.count('unblock_1014 calls')
         if k2 != 'ok':
             unexpected(ctx, case, k2, v2, 'unblock_1014(inverse)')
@@ -346,7 +350,7 @@ def judge(ctx, case):
 def judge_unblock(ctx, case, data):
     m = ctx.mciipm
     out = io.BytesIO()
-    kind, val = ctx.call(m.unblock_1014, io.BytesIO(data), out, budget=40000)
+    kind, val = ctx.call(m.unblock_1014, io.BytesIO(data), out, budget=sentinel.budget_for(len(data)))
     ctx.count('unblock_1014 calls')
     problem = ref.well_blocked(data)
     if kind == 'steps':
